@@ -575,5 +575,140 @@ example : (cliParseRecipientsFile toyParse toySniff toyValid 8 65536 (2^24) [115
     = .error .noKeys := by rfl
 end examples
 
+/-! ## non-vacuity, theorem by theorem: the hypotheses of each theorem at concrete values
+
+  No hypotheses (equations / equivalences, both sides of which are reached by
+  the `example`s above): `entry_points`, `keyfile_exact`, `keyfile_first_error`,
+  `cli_keyfile_exact`, `cli_keyfile_first_error`, `lib_never_skips`. -/
+
+section nonvacuous
+
+/-- non-vacuity of `keyfile_exact_count`: the five-line `toyFile` (comment, CR LF
+    and LF endings, an empty line, no final newline) parses to three keys -/
+theorem keyfile_exact_count_nonvacuous :
+    parseLib toyParse 65536 (2^24) toyFile = .ok [49, 50, 51] := by rfl
+
+example : ([49, 50, 51] : List Nat).length = ((linesOf 65536 (2^24) toyFile).filter content).length :=
+  (keyfile_exact_count toyParse 65536 (2^24) toyFile _ keyfile_exact_count_nonvacuous).1
+
+/-- non-vacuity of `keyfile_no_skip`: line 4 of `toyFile` (`k2`, after a comment,
+    a key and an empty line) is delivered and is neither empty nor a comment -/
+theorem keyfile_no_skip_nonvacuous :
+    (linesOf 65536 (2^24) toyFile)[3]? = some [107, 50] ∧ content [107, 50] = true := by decide
+
+/-- non-vacuity of `cli_skipped_sound`: line 2 (`sv`) of `toyR1` is in the warning log -/
+theorem cli_skipped_sound_nonvacuous :
+    2 ∈ (cliParseRecipientsFile toyParse toySniff toyValid 8 65536 (2^24) toyR1).skipped := by decide
+
+/-- a sniffer that recognises lines starting with `d` as `ssh-ed25519` -/
+def toySniffEd : Bytes → Option Bytes
+  | 100 :: _ => some sshEd25519
+  | l => toySniff l
+
+/-- non-vacuity of `cli_ed25519_never_skipped`: "k1\nd9\nk2\n", whose second line does
+    not parse and sniffs as `ssh-ed25519` -/
+theorem cli_ed25519_never_skipped_nonvacuous :
+    (linesOf 65536 (2^24) [107, 49, 10, 100, 57, 10, 107, 50, 10])[1]? = some [100, 57] ∧
+    content [100, 57] = true ∧ toyParse [100, 57] = none ∧ toySniffEd [100, 57] = some sshEd25519 := by
+  decide
+
+example : (cliParseRecipientsFile toyParse toySniffEd toyValid 8 65536 (2^24)
+    [107, 49, 10, 100, 57, 10, 107, 50, 10]).res = .error (.atLine 2) := by rfl
+
+/-- non-vacuity of `cli_keyfile_no_skip`: line 2 (`sv`, logged) of `toyR1`; the
+    `example` below: line 4 (`k2`, the second key) -/
+theorem cli_keyfile_no_skip_nonvacuous :
+    (linesOf 65536 (2^24) toyR1)[1]? = some [115, 118] ∧ content [115, 118] = true := by decide
+
+example : (linesOf 65536 (2^24) toyR1)[3]? = some [107, 50] ∧ content [107, 50] = true := by decide
+
+/-- non-vacuity of `lines_roundtrip_lf`: a key line, an empty line, a line with an
+    inner `\r` -/
+theorem lines_roundtrip_lf_nonvacuous :
+    ∀ l ∈ ([[107, 49], [], [35, 13, 32]] : List Bytes), 10 ∉ l ∧ l.getLast? ≠ some 13 ∧ l.length < 65536 := by decide
+
+example : scan 65536 [107, 49, 10, 10, 35, 13, 32, 10] = ⟨[[107, 49], [], [35, 13, 32]], false⟩ :=
+  lines_roundtrip_lf 65536 _ lines_roundtrip_lf_nonvacuous
+
+/-- non-vacuity of `lines_roundtrip_nofinal`: "k1\n\nk2" -/
+theorem lines_roundtrip_nofinal_nonvacuous :
+    (∀ l ∈ ([[107, 49], []] : List Bytes) ++ [([107, 50] : Bytes)], 10 ∉ l ∧ l.getLast? ≠ some 13 ∧ l.length < 65536) ∧
+    ([107, 50] : Bytes) ≠ [] := by decide
+
+example : scan 65536 [107, 49, 10, 10, 107, 50] = ⟨[[107, 49], [], [107, 50]], false⟩ :=
+  lines_roundtrip_nofinal 65536 [[107, 49], []] [107, 50] lines_roundtrip_nofinal_nonvacuous.1
+    lines_roundtrip_nofinal_nonvacuous.2
+
+/-- non-vacuity of `lines_roundtrip_crlf`: a key line, a line that is itself `\r`, an empty line -/
+theorem lines_roundtrip_crlf_nonvacuous :
+    ∀ l ∈ ([[107, 49], [13], []] : List Bytes), 10 ∉ l ∧ l.length + 1 < 65536 := by decide
+
+example : scan 65536 [107, 49, 13, 10, 13, 13, 10, 13, 10] = ⟨[[107, 49], [13], []], false⟩ :=
+  lines_roundtrip_crlf 65536 _ lines_roundtrip_crlf_nonvacuous
+
+/-- non-vacuity of `scan_token_too_long`: token limit 4, "k1\n" then the 4-byte line `k234` -/
+theorem scan_token_too_long_nonvacuous :
+    (∀ l ∈ ([[107, 49]] : List Bytes), 10 ∉ l ∧ l.getLast? ≠ some 13 ∧ l.length < 4) ∧
+    10 ∉ ([107, 50, 51, 52] : Bytes) ∧ 4 ≤ ([107, 50, 51, 52] : Bytes).length ∧ 0 < 4 := by decide
+
+example : scan 4 [107, 49, 10, 107, 50, 51, 52, 10, 107, 53, 10] = ⟨[[107, 49]], true⟩ :=
+  (scan_token_too_long 4 [[107, 49]] [107, 50, 51, 52] [107, 53, 10] scan_token_too_long_nonvacuous.1
+    scan_token_too_long_nonvacuous.2.1 scan_token_too_long_nonvacuous.2.2.1
+    scan_token_too_long_nonvacuous.2.2.2).2
+
+/-- non-vacuity of `limit_reader` (no outer hypotheses; the premise of its second
+    part): `toyFile` is within the 16 MiB limit -/
+theorem limit_reader_nonvacuous : toyFile.length ≤ 2^24 := by decide
+
+/-- non-vacuity of `recipient_error_content_free` and (same hypotheses, `parseIdentities`
+    for `parseRecipients`) of `identity_error_no_secret_partial`: "k1\nzz\nk2\n" and
+    "k1\nyyy\n" agree up to line 2, which in neither file parses -/
+theorem recipient_error_content_free_nonvacuous :
+    linesOf 65536 (2^24) [107, 49, 10, 122, 122, 10, 107, 50, 10] = [[107, 49]] ++ [122, 122] :: [[107, 50]] ∧
+    linesOf 65536 (2^24) [107, 49, 10, 121, 121, 121, 10] = [[107, 49]] ++ [121, 121, 121] :: [] ∧
+    content [122, 122] = true ∧ toyParse [122, 122] = none ∧
+    content [121, 121, 121] = true ∧ toyParse [121, 121, 121] = none := by decide
+
+example : parseIdentities toyParse 65536 (2^24) [107, 49, 10, 122, 122, 10, 107, 50, 10] =
+    parseIdentities toyParse 65536 (2^24) [107, 49, 10, 121, 121, 121, 10] :=
+  (identity_error_no_secret_partial toyParse 65536 (2^24) _ _ [[107, 49]] [[107, 50]] [] [122, 122] [121, 121, 121]
+    recipient_error_content_free_nonvacuous.1 recipient_error_content_free_nonvacuous.2.1
+    recipient_error_content_free_nonvacuous.2.2.1 recipient_error_content_free_nonvacuous.2.2.2.1
+    recipient_error_content_free_nonvacuous.2.2.2.2.1 recipient_error_content_free_nonvacuous.2.2.2.2.2).1
+example : parseRecipients toyParse 65536 (2^24) [107, 49, 10, 122, 122, 10, 107, 50, 10] = .error (.atLine 2) := by rfl
+
+/-- non-vacuity of `error_content_free_bytes`: one good line `k1`, then `zz` resp.
+    `y\r` (a CR LF ending), then the same rest "k2\n" -/
+theorem error_content_free_bytes_nonvacuous :
+    (∀ x ∈ ([[107, 49]] : List Bytes), 10 ∉ x ∧ x.length < 65536) ∧
+    (10 ∉ ([122, 122] : Bytes) ∧ ([122, 122] : Bytes).length < 65536) ∧
+    (10 ∉ ([121, 13] : Bytes) ∧ ([121, 13] : Bytes).length < 65536) ∧
+    content (dropCR [122, 122]) = true ∧ toyParse (dropCR [122, 122]) = none ∧
+    content (dropCR [121, 13]) = true ∧ toyParse (dropCR [121, 13]) = none ∧
+    (joinLF [[107, 49]] ++ ([122, 122] ++ 10 :: [107, 50, 10])).length ≤ 2^24 ∧
+    (joinLF [[107, 49]] ++ ([121, 13] ++ 10 :: [107, 50, 10])).length ≤ 2^24 := by decide
+
+example : parseLib toyParse 65536 (2^24) (joinLF [[107, 49]] ++ ([122, 122] ++ 10 :: [107, 50, 10])) =
+    parseLib toyParse 65536 (2^24) (joinLF [[107, 49]] ++ ([121, 13] ++ 10 :: [107, 50, 10])) :=
+  have h := error_content_free_bytes_nonvacuous
+  error_content_free_bytes toyParse 65536 (2^24) [[107, 49]] [122, 122] [121, 13] [107, 50, 10]
+    h.1 h.2.1 h.2.2.1 h.2.2.2.1 h.2.2.2.2.1 h.2.2.2.2.2.1 h.2.2.2.2.2.2.1 h.2.2.2.2.2.2.2.1 h.2.2.2.2.2.2.2.2
+
+/-- the hypotheses above have literally the shape the theorems ask for -/
+example := keyfile_no_skip toyParse 65536 (2^24) toyFile 3 _ keyfile_no_skip_nonvacuous.1 keyfile_no_skip_nonvacuous.2
+example := cli_skipped_sound toyParse toySniff toyValid 8 65536 (2^24) toyR1 2 cli_skipped_sound_nonvacuous
+example := cli_ed25519_never_skipped toyParse toySniffEd toyValid 8 65536 (2^24) _ 1 _
+  cli_ed25519_never_skipped_nonvacuous.1 cli_ed25519_never_skipped_nonvacuous.2.1
+  cli_ed25519_never_skipped_nonvacuous.2.2.1 cli_ed25519_never_skipped_nonvacuous.2.2.2
+example := cli_keyfile_no_skip toyParse toySniff toyValid 8 65536 (2^24) toyR1 1 _
+  cli_keyfile_no_skip_nonvacuous.1 cli_keyfile_no_skip_nonvacuous.2
+example := (limit_reader 65536 (2^24) toyFile).2 limit_reader_nonvacuous
+example := recipient_error_content_free toyParse 65536 (2^24) _ _ [[107, 49]] [[107, 50]] [] [122, 122] [121, 121, 121]
+    recipient_error_content_free_nonvacuous.1 recipient_error_content_free_nonvacuous.2.1
+    recipient_error_content_free_nonvacuous.2.2.1 recipient_error_content_free_nonvacuous.2.2.2.1
+    recipient_error_content_free_nonvacuous.2.2.2.2.1 recipient_error_content_free_nonvacuous.2.2.2.2.2
+
+end nonvacuous
+
 end Props.C18
 end AgeModel
